@@ -127,6 +127,15 @@ Proof.
   - exact Hn.
   - apply He. apply HTL. apply e2_gth_of_get. exact Hg.
 Qed.
+Lemma e2_sf_resume_read_fail : forall s t s', (forall t a, gth s t = Some a -> TL t a) -> resume_read_fail s t = Some s' ->
+  exists a a', stepfacts s s' t a a'.
+Proof.
+  intros s t s' HTL H. destruct (e2_resume_read_fail_eff _ _ _ H) as [th [th' [Hg [Hn He]]]].
+  exists (ug th), (ug th'). constructor.
+  - left. apply e2_gth_of_get. exact Hg.
+  - exact Hn.
+  - apply He. apply HTL. apply e2_gth_of_get. exact Hg.
+Qed.
 Lemma e2_sf_start : forall s t rq s', start s t rq = Some s' -> exists a a', stepfacts s s' t a a'.
 Proof.
   intros s t rq s' H. destruct (e2_start_eff _ _ _ _ H) as [Hg [th' [Hn He]]].
